@@ -233,6 +233,8 @@ fn cli_strat(_: &Ctx) -> BoxedStrategy<CliCase> {
                     kt_ratio: Some(0.3),
                     max_step_size: Some(max_step),
                     convergence: None,
+                    verbosity: 0,
+                    start_config: None,
                 },
                 threads,
             }
